@@ -165,22 +165,69 @@ def compress(row: list) -> list:
     return [v for v in row if v is not None]
 
 
-PER_SIGNATURE = 5   # failing inputs recorded per signature and run (the rest are only counted)
+PER_SIGNATURE = 2   # failing inputs recorded per signature and run (the rest are only counted)
 
 
 def oracle(ctx, recipe: dict, built: G.Built, obs: Observed, expect_valid: set) -> set:
     """Brute-force statement of C10 on the real outputs, against the generator's ground truth.
     `expect_valid`: the optional tables this dataset supplies in a valid form.
-    Returns the signatures of the failures found on this input."""
-    raised: set = set()
-    _oracle(ctx, recipe, built, obs, expect_valid, raised)
-    return raised
+    Returns the signatures of the failures found on this input; records (shrunk) failing inputs."""
+    found = findings(recipe, built, obs, expect_valid)
+    for sig, msg in found:
+        ctx.count(f'oracle:{sig}')
+        if ctx.distribution[f'oracle:{sig}'] <= PER_SIGNATURE:
+            small = shrink(recipe, sig, expect_valid) if ctx.distribution[f'oracle:{sig}'] == 1 else recipe
+            if small is not recipe:
+                again = [m for s, m in findings_of(small, expect_valid) if s == sig]
+                msg = again[0] if again else msg
+            ctx.oracle_fail(sig, {'recipe': small, 'expect_valid': sorted(expect_valid)}, msg)
+    return {sig for sig, _ in found}
 
 
-def _oracle(ctx, recipe: dict, built: G.Built, obs: Observed, expect_valid: set, raised: set) -> None:
+def findings_of(recipe: dict, expect_valid: set) -> list:
+    built = M.build(recipe)
+    return findings(recipe, built, Observed(built), expect_valid)
+
+
+def shrink(recipe: dict, sig: str, expect_valid: set) -> dict:
+    """greedy: drop faces, then optional encoding choices, while the same failure remains"""
+    cur = recipe
+
+    def still(cand):
+        try:
+            return any(s == sig for s, _ in findings_of(cand, expect_valid & set(cand['enc'].get('tables', []))))
+        except Exception:  # noqa: BLE001
+            return False
+    progress = True
+    while progress and len(cur['faces']) > 1:
+        progress = False
+        for i in range(len(cur['faces'])):
+            cand = {k: v for k, v in cur.items() if k != 'edges'}
+            cand['faces'] = cur['faces'][:i] + cur['faces'][i + 1:]
+            if still(cand):
+                cur, progress = cand, True
+                break
+    for key, plain in (('transposed', False), ('start_index', 0), ('start_index_spelling', 'int'), ('pad', 0)):
+        if cur['enc'].get(key, plain) != plain:
+            cand = dict(cur, enc=dict(cur['enc'], **{key: plain}))
+            if still(cand):
+                cur = cand
+    for t in list(cur['enc'].get('tables', [])):
+        cand = dict(cur, enc=dict(cur['enc'], tables=[x for x in cur['enc']['tables'] if x != t]))
+        if still(cand):
+            cur = cand
+    return cur
+
+
+def findings(recipe: dict, built: G.Built, obs: Observed, expect_valid: set) -> list:
+    found: list = []
+    _oracle(recipe, built, obs, expect_valid, found)
+    return found
+
+
+def _oracle(recipe: dict, built: G.Built, obs: Observed, expect_valid: set, found: list) -> None:
     faces = recipe['faces']
     enc = recipe.get('enc', {})
-    desc = {'recipe': recipe}
     ex = built.extra
     width = ex['maxn']
     has_edge = ex['has_edge']
@@ -189,10 +236,7 @@ def _oracle(ctx, recipe: dict, built: G.Built, obs: Observed, expect_valid: set,
     face_coords = enc.get('face_coords')
 
     def fail(sig, msg):
-        raised.add(sig)
-        ctx.count(f'oracle:{sig}')
-        if ctx.distribution[f'oracle:{sig}'] <= PER_SIGNATURE:
-            ctx.oracle_fail(sig, desc, msg)
+        found.append((sig, msg))
 
     # --- coordinates held as xarray coordinates (CF `coordinates` attribute) -------------
     if coords_as == 'coords':
@@ -248,6 +292,9 @@ def _oracle(ctx, recipe: dict, built: G.Built, obs: Observed, expect_valid: set,
                      f'{key_of[tname]} = {rows_str(got) if got is not None else obs.errs[key_of[tname]]}')
     if not has_edge:
         # no edge dimension declared or implied: outside the quantifier of the property
+        return
+    if any(sig == 'ugrid-two-dimension-guess-drops-supplied-edge-table' for sig, _ in found):
+        # everything below would only repeat the consequences of the dropped table
         return
 
     # --- derived tables against the face-node table ----------------------------------------
@@ -358,90 +405,95 @@ def settle_flagged(ctx) -> None:
         ctx.disagree(qline, impl, f'{primary}   (or, with the recorded deviation: {quirk})', desc)
 
 
+def product_cases(ctx, items: list, mesh: dict, counter: list) -> None:
+    """the full encoding product of the quantifier on one mesh"""
+    rng = ctx.rng
+    subsets = [list(s) for n in range(5) for s in itertools.combinations(M.TABLES, n)]
+    uniform = is_uniform(mesh['faces'])
+    fills = ['nan', 'attr', 'nc'] + (['none'] if uniform else [])
+    edges = M.shuffled_edges(rng, mesh['faces'])
+    reference = None
+    for base, fill, transposed, tables, declared in itertools.product([0, 1], fills, [False, True], subsets, [False, True]):
+        enc = {'start_index': base, 'fill': 'attr' if fill == 'nc' else fill, 'transposed': transposed,
+               'tables': tables, 'edge_dim_declared': declared}
+        opt = {}
+        if fill == 'nc':
+            # true netCDF round trips are slow: quick tier does every fourth of them
+            counter[0] += 1
+            if counter[0] % 4 != 0 and not ctx.thorough:
+                continue
+            opt['netcdf'] = True
+        if declared and not set(tables) & {'edge_node', 'edge_face'} and rng.random() < 0.3:
+            opt['drop_edge_id'] = True
+        recipe = {'conv': 'ugrid', 'nodes': mesh['nodes'], 'faces': mesh['faces'], 'edges': edges, 'enc': enc}
+        if opt:
+            recipe['c10'] = opt
+        obs = one_case(ctx, items, recipe, set(tables), 'product')
+        ctx.nontrivial((mesh['name'], enc_key(enc, opt)))
+        # the literal statement: identical faces and polygons whatever the encoding
+        ident = (obs.tables['fn'], obs.poly)
+        if reference is None:
+            reference = ident
+        elif ident != reference and obs.tables['fn'] is not None:
+            ctx.count('oracle:encoding-changes-faces')
+            if ctx.distribution['oracle:encoding-changes-faces'] <= PER_SIGNATURE:
+                ctx.oracle_fail('encoding-changes-faces', {'recipe': recipe, 'expect_valid': sorted(tables)},
+                                'face_node_array / polygons differ from those of the first encoding of the same mesh')
+
+
+def sampled_cases(ctx, items: list, mesh: dict) -> None:
+    """options outside the product: spelling of start_index, padding, dimension names, face dimension
+    undeclared, coordinates as variables or as xarray coordinates"""
+    rng = ctx.rng
+    uniform = is_uniform(mesh['faces'])
+    for _ in range(ctx.budget(4, 12)):
+        tables = [t for t in M.TABLES if rng.random() < 0.5]
+        enc = {'start_index': rng.choice([0, 1]),
+               'fill': rng.choice(['nan', 'attr'] + (['none'] if uniform else [])),
+               'transposed': rng.random() < 0.4, 'tables': tables,
+               'edge_dim_declared': rng.random() < 0.5,
+               'start_index_spelling': rng.choice(['int', 'int', 'str', 'np']),
+               'pad': rng.choice([0, 0, 1, 2]),
+               'face_dim_declared': rng.random() < 0.5}
+        if enc['pad'] and enc['fill'] == 'none':
+            enc['fill'] = 'nan'
+        if enc['start_index'] == 0 and rng.random() < 0.3:
+            enc['explicit_start_index'] = False
+        recipe = {'conv': 'ugrid', 'nodes': mesh['nodes'], 'faces': mesh['faces'],
+                  'edges': M.shuffled_edges(rng, mesh['faces']), 'enc': enc}
+        opt = {}
+        if rng.random() < 0.25 and enc['fill'] == 'attr':
+            opt['netcdf'] = True
+        if rng.random() < 0.3:
+            recipe['names'] = {'face_dim': 'nface', 'node_dim': 'nnode', 'edge_dim': 'nedge',
+                               'max_dim': 'nmax', 'two_dim': rng.choice(['Two', 'two', 'nv'])}
+        if opt:
+            recipe['c10'] = opt
+        one_case(ctx, items, recipe, set(tables), 'sampled')
+        ctx.nontrivial((mesh['name'], enc_key(enc, opt), str(recipe.get('names'))))
+    for coords_as, face_coords in itertools.product(['vars', 'coords'], [None, 'vars', 'coords']):
+        tables = [t for t in M.TABLES if rng.random() < 0.5]
+        enc = {'start_index': rng.choice([0, 1]), 'fill': rng.choice(['nan', 'attr']),
+               'transposed': rng.random() < 0.3, 'tables': tables, 'edge_dim_declared': True,
+               'coords_as': coords_as, 'face_coords': face_coords}
+        recipe = {'conv': 'ugrid', 'nodes': mesh['nodes'], 'faces': mesh['faces'],
+                  'edges': M.shuffled_edges(rng, mesh['faces']), 'enc': enc}
+        one_case(ctx, items, recipe, set(tables), 'coords')
+        ctx.nontrivial((mesh['name'], enc_key(enc, {})))
+
+
 def run(ctx) -> None:
     rng = ctx.rng
     items: list = []
     ctx.c10_flagged = []
-    # ---- start_index, directly ----------------------------------------------------------
     start_index_cases(ctx, items)
-    # ---- meshes ---------------------------------------------------------------------------
     pool = M.mesh_pool(rng, ctx.tier, ctx.budget(3, 12))
     specials = [m for m in pool if not m['name'].startswith('lattice')]
     lattices = [m for m in pool if m['name'].startswith('lattice')]
-    subsets = [list(s) for n in range(5) for s in itertools.combinations(M.TABLES, n)]
-    # full encoding product on: the uniform mesh (the only one that needs no fill), one special
-    # mixed mesh, and the random lattices
-    product_meshes = [m for m in specials if m['name'] in ('uniform-quads', 'octagon')] + lattices
-    n_product = 0
-    for mesh in product_meshes:
-        uniform = is_uniform(mesh['faces'])
-        fills = ['nan', 'attr', 'nc'] + (['none'] if uniform else [])
-        edges = M.shuffled_edges(rng, mesh['faces'])
-        reference = None
-        for base, fill, transposed, tables, declared in itertools.product([0, 1], fills, [False, True], subsets, [False, True]):
-            enc = {'start_index': base, 'fill': 'attr' if fill == 'nc' else fill, 'transposed': transposed,
-                   'tables': tables, 'edge_dim_declared': declared}
-            opt = {}
-            if fill == 'nc':
-                # true netCDF round trips are slow: every fourth case, the rest emulate nothing and are skipped
-                if (n_product % 4) != 0 and not ctx.thorough:
-                    n_product += 1
-                    continue
-                opt['netcdf'] = True
-            if declared and not set(tables) & {'edge_node', 'edge_face'} and rng.random() < 0.3:
-                opt['drop_edge_id'] = True
-            recipe = {'conv': 'ugrid', 'nodes': mesh['nodes'], 'faces': mesh['faces'], 'edges': edges, 'enc': enc}
-            if opt:
-                recipe['c10'] = opt
-            obs = one_case(ctx, items, recipe, set(tables), 'product')
-            n_product += 1
-            ctx.nontrivial((mesh['name'], enc_key(enc, opt)))
-            # the literal statement: identical faces and polygons whatever the encoding
-            ident = (obs.tables['fn'], obs.poly)
-            if reference is None:
-                reference = ident
-            elif ident != reference and obs.tables['fn'] is not None:
-                ctx.oracle_fail('encoding-changes-faces', {'recipe': recipe},
-                                'face_node_array / polygons differ from those of the first encoding of the same mesh')
-    ctx.exhaustive = True
-    # ---- sampled options on every mesh ---------------------------------------------------------
-    for mesh in pool:
-        uniform = is_uniform(mesh['faces'])
-        for _ in range(ctx.budget(4, 12)):
-            tables = [t for t in M.TABLES if rng.random() < 0.5]
-            enc = {'start_index': rng.choice([0, 1]),
-                   'fill': rng.choice(['nan', 'attr'] + (['none'] if uniform else [])),
-                   'transposed': rng.random() < 0.4, 'tables': tables,
-                   'edge_dim_declared': rng.random() < 0.5,
-                   'start_index_spelling': rng.choice(['int', 'int', 'str', 'np']),
-                   'pad': rng.choice([0, 0, 1, 2])}
-            if enc['pad'] and enc['fill'] == 'none':
-                enc['fill'] = 'nan'
-            if enc['start_index'] == 0 and rng.random() < 0.3:
-                enc['explicit_start_index'] = False
-            recipe = {'conv': 'ugrid', 'nodes': mesh['nodes'], 'faces': mesh['faces'],
-                      'edges': M.shuffled_edges(rng, mesh['faces']), 'enc': enc}
-            opt = {}
-            if rng.random() < 0.25 and enc['fill'] == 'attr':
-                opt['netcdf'] = True
-            if rng.random() < 0.3:
-                recipe['names'] = {'face_dim': 'nface', 'node_dim': 'nnode', 'edge_dim': 'nedge',
-                                   'max_dim': 'nmax', 'two_dim': rng.choice(['Two', 'two', 'nv'])}
-            if opt:
-                recipe['c10'] = opt
-            one_case(ctx, items, recipe, set(tables), 'sampled')
-            ctx.nontrivial((mesh['name'], enc_key(enc, opt), str(recipe.get('names'))))
-        # coordinates as plain variables or as xarray coordinates
-        for coords_as, face_coords in itertools.product(['vars', 'coords'], [None, 'vars', 'coords']):
-            tables = [t for t in M.TABLES if rng.random() < 0.5]
-            enc = {'start_index': rng.choice([0, 1]), 'fill': rng.choice(['nan', 'attr']),
-                   'transposed': rng.random() < 0.3, 'tables': tables, 'edge_dim_declared': True,
-                   'coords_as': coords_as, 'face_coords': face_coords}
-            recipe = {'conv': 'ugrid', 'nodes': mesh['nodes'], 'faces': mesh['faces'],
-                      'edges': M.shuffled_edges(rng, mesh['faces']), 'enc': enc}
-            one_case(ctx, items, recipe, set(tables), 'coords')
-            ctx.nontrivial((mesh['name'], enc_key(enc, {})))
-    # ---- a size-2 dimension other than the edge tables' second dimension -----------------------
+    # smallest meshes first, so that the first failing input of any kind is a small one
+    for mesh in specials:
+        sampled_cases(ctx, items, mesh)
+    # a size-2 dimension other than the edge tables' second dimension
     for mesh in [m for m in pool if m['name'] in ('two-quads', 'octagon')]:
         for two in ['Two', 'nv']:
             enc = {'start_index': 0, 'fill': 'nan', 'transposed': False, 'tables': ['edge_node', 'edge_face'],
@@ -453,9 +505,16 @@ def run(ctx) -> None:
                 recipe['c10'] = {'extra_dim_first': ['time', 2]}
             one_case(ctx, items, recipe, {'edge_node', 'edge_face'}, 'two-dimension')
             ctx.nontrivial((mesh['name'], 'two-dim', two))
-    # ---- malformed stream ---------------------------------------------------------------------------
+    # full encoding product: the uniform mesh (the only one that needs no fill value), one mixed
+    # special mesh, the random lattices
+    counter = [0]
+    for mesh in [m for m in specials if m['name'] in ('uniform-quads', 'octagon')] + lattices:
+        product_cases(ctx, items, mesh, counter)
+    ctx.exhaustive = True
+    for mesh in lattices:
+        sampled_cases(ctx, items, mesh)
     malformed(ctx, items, pool)
-    # ---- conclusions of the theorems, evaluated on the model ------------------------------------------
+    # conclusions of the theorems, evaluated on the model
     for mesh in pool:
         width = max(len(f) for f in mesh['faces'])
         items.append((f"propcheck w={width} faces={M.rows_token(mesh['faces'])}", 'ok', {'mesh': mesh['name'], 'kind': 'propcheck'}))
@@ -601,6 +660,9 @@ def run_one(ctx, inp: dict) -> dict:
             line, impl = M.describe(built.ds, obs.numbering()), obs.line()
             for k, e in obs.exc.items():
                 out[f'raised[{k}]'] = f'{type(e).__name__}: {e}'
+            if 'expect_valid' in inp:
+                found = findings(recipe, built, obs, set(inp['expect_valid']))
+                out['oracle'] = '; '.join(f'{sig}: {msg[:200]}' for sig, msg in found) or 'property holds on this input'
         out['impl'] = impl
         if ctx.driver:
             out['model'] = ctx.model([line])[0]
